@@ -28,7 +28,7 @@ func init() {
 				"profile, device and their nested settings types is read by the cache encoder and written by the decoder. R7: no " +
 				"encoder loop appends a view of a buffer that the next iteration overwrites.",
 			NotCovered: "that the maps equal a reference model after arbitrary synchronisation sequences; protobuf wire compatibility.",
-			Rules: map[string]string{"C14-RC": "class rules (error chains, shadowed results, character classes, crossed arguments, pool constructors, array pools, loop completeness, loop-carried buffers, replacing setters, complete clones, Grow arithmetic, pooled-buffer escape, sorted searches, fresh decode targets, per-iteration objects, whole-message copies, codec guards) over the packages this property rests on", "C14-R14": "profile decoders return a usable value, never a nil interface, on error-free paths (expected count zero; F16 was the one instance)", "C14-R13": "profile codecs: early default returns only for nil / disabled input; nil sub-messages only for nil input (shared class rules)", "C14-R12": "the periodic refresh worker that drives the profile sync (shared rule, see C13-R11)", "C14-R11": "weekly-schedule codecs: all seven weekdays converted, each from/to the field of its own day (constant-index stores or a full loop over a weekday-ordered list)", "C14-R1": "maps and generation only under mapsMu", "C14-R2": "clean-ups re-validated by generation; inserts bump it",
+			Rules: map[string]string{"C14-R15": "ProfileByHumanID answers only when the profile that contains the found device is the requested one (stale (profile, human ID) keys of moved devices)", "C14-RC": "class rules (error chains, shadowed results, character classes, crossed arguments, pool constructors, array pools, loop completeness, loop-carried buffers, replacing setters, complete clones, Grow arithmetic, pooled-buffer escape, sorted searches, fresh decode targets, per-iteration objects, whole-message copies, codec guards) over the packages this property rests on", "C14-R14": "profile decoders return a usable value, never a nil interface, on error-free paths (expected count zero; F16 was the one instance)", "C14-R13": "profile codecs: early default returns only for nil / disabled input; nil sub-messages only for nil input (shared class rules)", "C14-R12": "the periodic refresh worker that drives the profile sync (shared rule, see C13-R11)", "C14-R11": "weekly-schedule codecs: all seven weekdays converted, each from/to the field of its own day (constant-index stores or a full loop over a weekday-ordered list)", "C14-R1": "maps and generation only under mapsMu", "C14-R2": "clean-ups re-validated by generation; inserts bump it",
 				"C14-R3": "full sync clears all maps", "C14-R4": "lookup re-check decision trees", "C14-R5": "atomic cache write, version check",
 				"C14-R6": "codec field coverage", "C14-R7": "no loop-carried buffer aliasing in the encoder",
 				"C14-R8": "synchronisation protocol tables: Refresh (apply exactly what was fetched, advance the sync point, store the file cache on a full sync), fetchProfiles (a full sync asks from the zero time), needsFullSync, loadFileCache"},
@@ -508,7 +508,9 @@ func c14Lookups(c *an.Ctx, rule string) {
 	// human ID
 	decide(c, rule, pdb+"ProfileByHumanID", an.DecideCfg{
 		Dom: an.Domain{"p0.profiles[p2]#ok": an.Bools, "p0.profiles[p2]": {an.NonNil("profByID")},
-			"p0.humanIDToDeviceID[struct{lower:p3,profile:p2}]#ok": an.Bools, "byid": an.Strs("ok", "devnotfound", "other"), "(p3 == dev.HumanIDLower)": an.Bools},
+			"p0.humanIDToDeviceID[struct{lower:p3,profile:p2}]#ok": an.Bools, "byid": an.Strs("ok", "devnotfound", "other"), "(p3 == dev.HumanIDLower)": an.Bools,
+			// F17: the profile that contains the found device must be the requested one
+			"(prof.ID == p2)": an.Bools},
 		OnCall: common,
 		Args:   nil,
 		Expect: func(f an.Features, o an.AOutcome) string {
@@ -522,11 +524,14 @@ func c14Lookups(c *an.Ctx, rule string) {
 			case f.S("byid") == "other":
 			case !f.B("(p3 == dev.HumanIDLower)"):
 				wantGo = true
+			case !f.B("(prof.ID == p2)"):
+				// the device was moved to another profile: the (profile, human ID) key is stale
+				wantGo = true
 			default:
 				wantOK = true
 			}
 			if wantOK != success(o) || (!wantOK && !failure(o)) {
-				return fmt.Sprintf("success=%v (only for an existing profile whose device still carries the human ID)", wantOK)
+				return fmt.Sprintf("success=%v (only for an existing profile that still contains a device carrying the human ID)", wantOK)
 			}
 			if wantGo != (n == 1) {
 				return fmt.Sprintf("clean-up scheduled=%v; got %d", wantGo, n)
@@ -597,6 +602,8 @@ func c14Cache(c *an.Ctx) {
 	sharedFileMutators(c, "C14-R5", "profiledb")
 	c14CodecNames(c, "C14-R6", nil, 60)
 	c.Floor("C14-R11", 9)
+	c.Floor("C14-R15", 1)
+	c14HumanIDProfile(c)
 	// ---- R14: the decoders never hand out a nil behaviour object (authenticator, limiter, access profile, blocking mode)
 	c.Inf("C14-R14", "nil interface results", token.NoPos, "%d error-free nil returns of interface-typed converter results found in the profile codecs",
 		sharedNoNilInterfaceResult(c, "C14-R14", nil, "backendpb.", "profiledb/internal/filecachepb."))
@@ -1525,4 +1532,90 @@ func c14WeekTables(c *an.Ctx, rule string) {
 	if sites < 9 {
 		c.Und(rule, "weekly-schedule codecs", token.NoPos, "only %d conversion sites recognised (expected the two decoders and the seven-field encoder)", sites)
 	}
+}
+
+// c14HumanIDProfile: the human-ID index is keyed by (profile, human ID), and
+// stale keys are removed lazily.  A lookup under profile P that finds a device
+// through such a key must re-check, before it answers, that the profile which
+// currently contains the device is P itself: after the device has been moved to
+// another profile by an incremental sync the old key still resolves, to the
+// *new* profile.  The success return of ProfileByHumanID must therefore be
+// dominated by a comparison of the found profile's ID with the requested one.
+func c14HumanIDProfile(c *an.Ctx) {
+	const k = "profiledb.(*Default).ProfileByHumanID"
+	key := k + " re-checks the profile of the device it found"
+	fn := c.Fn(k)
+	if fn == nil {
+		c.Und("C14-R15", key, token.NoPos, "anchor not found")
+		return
+	}
+	c.Analysed(k)
+	var idParam ssa.Value
+	for _, pa := range fn.Params {
+		if an.TypeName(pa.Type()) == "agd.ProfileID" {
+			idParam = pa
+		}
+	}
+	if idParam == nil {
+		c.Und("C14-R15", key, fn.Pos(), "no profile-ID parameter")
+		return
+	}
+	n, ok := 0, true
+	for _, r := range an.Returns(fn) {
+		if len(r.Results) != 3 {
+			continue
+		}
+		// the success return: "return p, d, nil" (with a deferred unlock the named results are cells, and the
+		// nil is stored into the error cell in the returning block)
+		success := an.IsNilConst(r.Results[2]) && !an.IsNilConst(r.Results[0])
+		if ld, isLd := r.Results[2].(*ssa.UnOp); isLd && ld.Op == token.MUL {
+			for _, in := range r.Block().Instrs {
+				if st, isSt := in.(*ssa.Store); isSt && st.Addr == ld.X && an.IsNilConst(st.Val) {
+					success = true
+				}
+			}
+			// and the profile result is not nil
+			if pl, isPl := r.Results[0].(*ssa.UnOp); isPl && pl.Op == token.MUL {
+				for _, in := range r.Block().Instrs {
+					if st, isSt := in.(*ssa.Store); isSt && st.Addr == pl.X && an.IsNilConst(st.Val) {
+						success = false
+					}
+				}
+			}
+		}
+		if !success {
+			continue
+		}
+		n++
+		checked := false
+		for _, e := range an.DominatingConds(r.Block()) {
+			bo, isBo := e.If.Cond.(*ssa.BinOp)
+			if !isBo || (bo.Op != token.EQL && bo.Op != token.NEQ) {
+				continue
+			}
+			for _, pair := range [][2]ssa.Value{{bo.X, bo.Y}, {bo.Y, bo.X}} {
+				if pair[0] != idParam {
+					continue
+				}
+				// the other side: the ID field of the profile found through the device
+				if ld, isLd := pair[1].(*ssa.UnOp); isLd && ld.Op == token.MUL {
+					if typ, f, _, okF := an.FieldOf(ld.X); okF && typ == "agd.Profile" && f == "ID" {
+						// equal on the edge that reaches the return
+						if (bo.Op == token.EQL) == e.Branch {
+							checked = true
+						}
+					}
+				}
+			}
+		}
+		if !checked {
+			ok = false
+		}
+	}
+	if n == 0 {
+		c.Und("C14-R15", key, fn.Pos(), "no success return found")
+		return
+	}
+	c.Check(ok, "C14-R15", key, fn.Pos(), "the found profile's ID is compared with the requested one before the lookup succeeds",
+		"the lookup succeeds without comparing the profile that contains the found device with the requested profile: after a device has been moved to another profile, its old (profile, human ID) key is answered with the other profile")
 }
